@@ -38,6 +38,7 @@ type Engine struct {
 	funcIDs         map[*ssa.Function]int
 	known           []*KnownFinding
 	replayOracles   map[string]string
+	boundedResults  []string // bounded stand-ins of this run: listed in the evidence, never counted as discharged
 	extErrGlobals   map[string]bool // error variables of other packages treated as constants (assumption)
 	errGlobals      map[string]int // "glob:pkg.Var" of error variables initialised once by errors.New and never written again
 	errGlobalNames  []string
